@@ -675,7 +675,8 @@ decreasing_by
   all_goals omega
 
 /-- Format auto-detection restricted to what the three writers produce; `k` = tar `read_header`
-calls made earlier in the process. -/
+calls this reader object has already made (`tar->default_inode`; a fresh reader starts at 0: the
+counter lives in the reader since the repo fix that took it out of a function-local static). -/
 def readArchive (partialRead : Bool) (bs : List Nat) (k : Nat := 0) : ReadResult :=
   if bs.take 6 = [48, 55, 48, 55, 48, 55] then cpioRead partialRead false bs ARCHIVE_FORMAT_CPIO_POSIX [] []
   else if bs.take 6 = [48, 55, 48, 55, 48, 49] then cpioRead partialRead true bs ARCHIVE_FORMAT_CPIO_SVR4_NOCRC [] []
